@@ -376,6 +376,82 @@ fn expand_calibrations(req: &Value) -> Value {
     json!({"source_body": source_body, "plain": plain, "mapped": mapped})
 }
 
+fn f64_of(v: &Value) -> f64 {
+    // floats travel as hexadecimal bit patterns so that NaN payloads and signed zeros survive
+    f64::from_bits(u64::from_str_radix(v.as_str().unwrap(), 16).unwrap())
+}
+
+fn bits(x: f64) -> Value {
+    json!(format!("{:016x}", x.to_bits()))
+}
+
+/// Expression from a JSON tree: {"k": "num", "re", "im"} | {"k": "pi"} | {"k": "var", "name"} | {"k": "addr", "name", "index"}
+/// | {"k": "prefix", "op", "e"} | {"k": "infix", "op", "l", "r"} | {"k": "call", "f", "e"}
+fn expr_of(v: &Value) -> quil_rs::expression::Expression {
+    use internment::ArcIntern;
+    use quil_rs::expression::*;
+    match v["k"].as_str().unwrap() {
+        "num" => Expression::Number(num_complex::Complex64::new(f64_of(&v["re"]), f64_of(&v["im"]))),
+        "pi" => Expression::PiConstant(),
+        "var" => Expression::Variable(v["name"].as_str().unwrap().to_string()),
+        "addr" => Expression::Address(quil_rs::instruction::MemoryReference { name: v["name"].as_str().unwrap().to_string(), index: v["index"].as_u64().unwrap() }),
+        "prefix" => Expression::Prefix(PrefixExpression {
+            operator: if v["op"] == "Minus" { PrefixOperator::Minus } else { PrefixOperator::Plus },
+            expression: ArcIntern::new(expr_of(&v["e"])),
+        }),
+        "infix" => Expression::Infix(InfixExpression {
+            left: ArcIntern::new(expr_of(&v["l"])),
+            operator: match v["op"].as_str().unwrap() {
+                "Caret" => InfixOperator::Caret,
+                "Plus" => InfixOperator::Plus,
+                "Minus" => InfixOperator::Minus,
+                "Slash" => InfixOperator::Slash,
+                _ => InfixOperator::Star,
+            },
+            right: ArcIntern::new(expr_of(&v["r"])),
+        }),
+        _ => Expression::FunctionCall(FunctionCallExpression {
+            function: match v["f"].as_str().unwrap() {
+                "Cis" => ExpressionFunction::Cis,
+                "Cosine" => ExpressionFunction::Cosine,
+                "Exponent" => ExpressionFunction::Exponent,
+                "Sine" => ExpressionFunction::Sine,
+                _ => ExpressionFunction::SquareRoot,
+            },
+            expression: ArcIntern::new(expr_of(&v["e"])),
+        }),
+    }
+}
+
+/// evaluate / substitute_variables / memory_references / simplify of a JSON-built expression.
+fn expression_ops(req: &Value) -> Value {
+    use num_complex::Complex64;
+    use quil_rs::expression::Expression;
+    let e = expr_of(&req["expr"]);
+    let mut vars: HashMap<String, Complex64> = HashMap::new();
+    for (k, v) in req["vars"].as_object().unwrap() {
+        vars.insert(k.clone(), Complex64::new(f64_of(&v[0]), f64_of(&v[1])));
+    }
+    let mut mem: HashMap<String, Vec<f64>> = HashMap::new();
+    for (k, v) in req["mem"].as_object().unwrap() {
+        mem.insert(k.clone(), v.as_array().unwrap().iter().map(f64_of).collect());
+    }
+    let show = |r: Result<Complex64, quil_rs::expression::EvaluationError>| match r {
+        Ok(c) => json!({"ok": [bits(c.re), bits(c.im)]}),
+        Err(e) => json!({"err": format!("{e:?}")}),
+    };
+    let direct = show(e.evaluate(&vars, &mem));
+    let as_exprs: HashMap<String, Expression> = vars.iter().map(|(k, v)| (k.clone(), Expression::Number(*v))).collect();
+    let substituted = e.substitute_variables(&as_exprs);
+    let empty: HashMap<String, Complex64> = HashMap::new();
+    let after = show(substituted.evaluate(&empty, &mem));
+    let refs: Vec<Value> = e.memory_references().map(|r| json!([r.name, r.index])).collect();
+    let simplified = e.clone().into_simplified();
+    json!({"expr": dbg(&e), "evaluate": direct, "substituted": dbg(&substituted), "evaluate_substituted": after, "memory_references": refs,
+           "simplified": dbg(&simplified), "evaluate_simplified": show(simplified.evaluate(&vars, &mem)),
+           "simplified_memory_references": simplified.memory_references().map(|r| json!([r.name, r.index])).collect::<Vec<_>>()})
+}
+
 /// Call::resolve_arguments of every CALL in the body against the program's declarations and extern signatures.
 fn call_resolve(req: &Value) -> Value {
     use quil_rs::instruction::ExternSignatureMap;
@@ -565,6 +641,7 @@ pub fn run(op: &str, req: &Value) -> Value {
         "expand_defgate_sequences" => expand_defgate_sequences(req),
         "gate_depth" => gate_depth(req),
         "call_resolve" => call_resolve(req),
+        "expression_ops" => expression_ops(req),
         "roles" => roles(req),
         "schedule_graph" => schedule_graph(req),
         "extern_signature_map" => extern_signature_map(req),
